@@ -265,8 +265,8 @@ def compare(ctx, kind, gsym, t0, box, cfg, order, N, seed):
         else:
             small = ef / scale <= SMALL[order]
             conv = True
-            if ef / scale > FLOOR:
-                conv = 2.0 ** (order - 1.0) <= ratio <= 2.0 ** (order + 1.6)
+            if ef / scale > FLOOR and ef > 2e-12:
+                conv = 2.0 ** (order - 1.0) <= ratio <= 2.0 ** (order + 1.0)
             ok = small and conv
             what = ("not small: relative error %.3g on the finer grid" % (ef / scale)) if not small else \
                 ("error ratio %.3g, expected about %g (order %d)" % (ratio, 2.0 ** order, order))
@@ -299,7 +299,10 @@ def configs(ctx):
 
 def search(ctx, only=None):
     found = 0
-    for kind, builder, t0, box, cfg, orders in configs(ctx):
+    todo = configs(ctx)
+    if ctx.tier == "thorough" or ctx.broken():
+        todo = todo + [todo[0][:5] + ((4,),)] * 2          # more random metrics
+    for kind, builder, t0, box, cfg, orders in todo:
         if only and kind != only:
             continue
         seed = ctx.rng.randrange(10 ** 6)
